@@ -8,8 +8,9 @@ use vreplay::*;
 
 /// GET `path` from source address `src`; returns (status, body)
 fn get(server: SocketAddr, src: &str, path: &str) -> Option<(u16, String)> {
-    let sock = socket2::Socket::new(socket2::Domain::IPV4, socket2::Type::STREAM, None).ok()?;
-    let local: SocketAddr = format!("{}:0", src).parse().unwrap();
+    let v6 = src.contains(':');
+    let sock = socket2::Socket::new(if v6 { socket2::Domain::IPV6 } else { socket2::Domain::IPV4 }, socket2::Type::STREAM, None).ok()?;
+    let local: SocketAddr = if v6 { format!("[{}]:0", src) } else { format!("{}:0", src) }.parse().unwrap();
     sock.bind(&local.into()).ok()?;
     sock.connect_timeout(&server.into(), Duration::from_secs(3)).ok()?;
     let mut s: TcpStream = sock.into();
@@ -30,8 +31,12 @@ fn serve(allow: Option<Vec<String>>) -> Result<SocketAddr, String> {
 
 /// like `serve`, but `pre(addr)` runs after the exporter is built (listener bound) and before its future is first polled
 fn serve_with(allow: Option<Vec<String>>, pre: impl FnOnce(SocketAddr) + Send + 'static) -> Result<SocketAddr, String> {
-    let port = { let l = std::net::TcpListener::bind("127.0.0.1:0").unwrap(); l.local_addr().unwrap().port() };
-    let addr: SocketAddr = format!("127.0.0.1:{}", port).parse().unwrap();
+    serve_on("127.0.0.1", allow, pre)
+}
+
+fn serve_on(host: &str, allow: Option<Vec<String>>, pre: impl FnOnce(SocketAddr) + Send + 'static) -> Result<SocketAddr, String> {
+    let port = { let l = std::net::TcpListener::bind(format!("{}:0", host)).map_err(|e| format!("bind {}: {}", host, e))?; l.local_addr().unwrap().port() };
+    let addr: SocketAddr = format!("{}:{}", host, port).parse().unwrap();
     let mut b = PrometheusBuilder::new().with_http_listener(addr);
     if let Some(list) = allow {
         for a in list {
@@ -70,6 +75,23 @@ fn main() {
         "c18_syntax" => {
             // the documented syntaxes: a plain address, a subnet; anything else is an error
             let cls = inp("cls");
+            if inp("family") == 6 {
+                // IPv6: the listener on [::1], the only local IPv6 source address is ::1. An entry naming ::1 must admit it, an entry
+                // naming another host (::2) must not: a plain address is exactly that host.
+                let (this, that) = [("::1/128", "::2/128"), ("::1", "::2"), ("localhost6", "localhost6")][cls as usize];
+                let mut results = vec![];
+                for s in [this, that] {
+                    match serve_on("[::1]", Some(vec![s.to_string()]), |_| {}) {
+                        Ok(addr) => { let r = get(addr, "::1", "/metrics").map(|x| x.0); println!("entry {:?} accepted; ::1 -> {:?}", s, r); results.push(Ok(r)); }
+                        Err(e) => { println!("entry {:?} rejected: {}", s, e); results.push(Err(e)); }
+                    }
+                }
+                let good = matches!(results[0], Ok(Some(200))) && matches!(results[1], Ok(Some(403)));
+                if cls == 2 && results.iter().any(|r| r.is_ok()) { v.push("garbage_rejected"); }
+                if cls == 0 && !good { v.push("subnet_accepted"); }
+                if cls == 1 && !good { v.push("plain_address_accepted"); }
+                finish(&v, &plan);
+            }
             let s = ["127.0.0.1/32", "127.0.0.1", "localhost"][cls as usize];
             match serve(Some(vec![s.to_string()])) {
                 Ok(addr) => {
